@@ -15,7 +15,7 @@ EXC = "insights.core.exceptions"
 # calls that cannot raise in practice, allowed inside the engine's own handlers / finally
 BENIGN = set([
     "log.debug", "log.info", "log.warning", "log.warn", "log.error", "log.exception", "log.isEnabledFor",
-    "traceback.format_exc", "time.time", "sys.exc_info", "str", "repr", "len", "isinstance", "issubclass", "getattr",
+    "traceback.format_exc", "time.time", "sys.exc_info", "str", "repr", "len", "list", "tuple", "sorted", "isinstance", "issubclass", "getattr",
     "get_name", "dr.get_name", "stringify_requirements", "dr.stringify_requirements",
     "get_registry_points", "dr.get_registry_points", "get_component_type",
     "BLACKLISTED_SPECS.append", "BLACKLISTED_SPECS.extend",
@@ -196,6 +196,16 @@ def add_exception_sites(mods):
     return out
 
 
+def _comp_plus_points(it, comp_text):
+    """[<comp>] + list(get_registry_points(<comp>)): the component itself first, then each of its registry points."""
+    if isinstance(it, ast.BinOp) and isinstance(it.op, ast.Add) and U(it.left) == "[%s]" % comp_text:
+        r = it.right
+        if isinstance(r, ast.Call) and call_name(r) in ("list", "sorted", "tuple") and r.args:
+            r = r.args[0]
+        return isinstance(r, ast.Call) and call_attr(r) == "get_registry_points" and bool(r.args) and U(r.args[0]) == comp_text
+    return False
+
+
 def _registry_loop(node, comp_text):
     """The enclosing ``for v in get_registry_points(<comp>) [or [<comp>]]`` loop, if any."""
     for a in ancestors(node):
@@ -205,6 +215,8 @@ def _registry_loop(node, comp_text):
             if isinstance(it, ast.BoolOp) and isinstance(it.op, ast.Or):
                 base = it.values[0]
             if isinstance(base, ast.Call) and call_attr(base) == "get_registry_points" and base.args and U(base.args[0]) == comp_text:
+                return a
+            if _comp_plus_points(it, comp_text):
                 return a
         if isinstance(a, FUNC_TYPES):
             break
@@ -368,6 +380,9 @@ def r7_registry_mirror(cx):
         return
     h = hs[0]
     direct = [c for c in find_calls(h.body, attr="add_exception") if c.args and U(c.args[0]) == comp and not guard_texts(c, stop=h) and enclosing(c, ast.For) is loop]
+    combined = [c for c in find_calls(h.body, attr="add_exception") if _registry_loop(c, comp) is not None and _comp_plus_points(_registry_loop(c, comp).iter, comp)
+                and U(c.args[0]) == U(_registry_loop(c, comp).target) and not guard_texts(c, stop=h)]
+    direct = direct or combined
     cx.require(len(direct) >= 1, h, "the catch-all arm records the failure against the component itself, unconditionally",
                construct=short(direct[0]) if direct else "except Exception: (no add_exception(%s, ...))" % comp)
     mir = [c for c in find_calls(h.body, attr="add_exception") if _registry_loop(c, comp) is not None and U(c.args[0]) == U(_registry_loop(c, comp).target)]
